@@ -904,6 +904,30 @@ func formatLayers(tier string) []Layer {
 			},
 		})
 	}
+	// V6: every explicit precision 0..300 (zero padding written in blocks, digit counts far beyond the mantissa)
+	{
+		vals := []*Opnd{
+			mkInt64(125, 0, 5, 0), mkInt64(1, 0, 1, 0), mkInt64(9995, -3, 4, 0), mkInt64(1, -3, 3, 0), mkInt64(-5, -1, 2, 0),
+			mkCoef(false, mustInt("12345678901234567890123"), -4, 25, 0), mkCoef(true, mustInt("99999999999999999999"), 7, 20, 0),
+		}
+		layers = append(layers, Layer{
+			Name:   "V6-every-precision-up-to-300",
+			Units:  len(vals),
+			Bounds: "7 values (1..23 digits, ±, integers and fractions) × formats e, E, f, g, G × every precision 0..300 × modes Even/AwayFromZero against the reference formatter",
+			Run: func(c *Ctx, u int) {
+				for _, m := range []uint8{ToNearestEven, AwayFromZero} {
+					xo := *vals[u]
+					xo.Mode = m
+					x := xo.Build()
+					for _, f := range []byte{'e', 'E', 'f', 'g', 'G'} {
+						for p := 0; p <= 300; p++ {
+							textCase(c, &xo, x, f, p)
+						}
+					}
+				}
+			},
+		})
+	}
 	return layers
 }
 
